@@ -444,6 +444,46 @@ async def _scoped_handler_scenario(order: str, eager_return: bool) -> list[Any]:
     return handled
 
 
+async def _serve_twice_scenario() -> list[str]:
+    """The UDP listener of the asyncio backend on a real socket: datagrams that arrive before serve() is awaited are handed over when it
+    starts - once; a second serve() on the same listener (the server was stopped and serves again) does not see them again."""
+    import socket
+
+    from easynetwork.lowlevel.api_async.backend._asyncio.backend import AsyncIOBackend
+    from easynetwork.lowlevel.socket import INETSocketAttribute
+
+    backend = AsyncIOBackend()
+    lst = (await backend.create_udp_listeners("127.0.0.1", 0))[0]
+    peer = socket.socket(socket.AF_INET, socket.SOCK_DGRAM)
+    delivered: list[list[str]] = [[], []]
+    problems: list[str] = []
+    try:
+        addr = lst.extra(INETSocketAttribute.sockname)
+        for p in (b"early-1", b"early-2"):
+            peer.sendto(p, addr)
+        await asyncio.sleep(0.05)
+        for rnd in (0, 1):
+
+            async def handler(data: bytes, a: Any, rnd: int = rnd) -> None:
+                delivered[rnd].append(data.decode())
+
+            task = asyncio.ensure_future(lst.serve(handler))
+            await asyncio.sleep(0.05)
+            if rnd == 0:
+                peer.sendto(b"mid-3", addr)
+            else:
+                peer.sendto(b"late-4", addr)
+            await asyncio.sleep(0.05)
+            task.cancel()
+            await asyncio.gather(task, return_exceptions=True)
+        if delivered != [["early-1", "early-2", "mid-3"], ["late-4"]]:
+            problems.append(f"first serve() got {delivered[0]}, second serve() got {delivered[1]}; sent early-1, early-2 (before the first serve), mid-3 (during it), late-4 (during the second)")
+    finally:
+        peer.close()
+        await lst.aclose()
+    return problems
+
+
 def _run_one(seed: int) -> list[dict[str, Any]]:
     return vloop.run(lambda: _scenario(seed))  # type: ignore[no-any-return]
 
@@ -464,6 +504,11 @@ def run(chk: Check) -> None:
         rec += part
     for i in range(12 if quick else 300):
         rec += asyncio.run(_real_listener_scenario(chk.seed * 13 + i))
+    problems = asyncio.run(_serve_twice_scenario())
+    chk.traces += 1
+    chk.distinct.add(("serve_twice",))
+    if problems:
+        chk.violation({"kind": "listener", "what": "serve_twice"}, f"UDP listener (asyncio backend, real socket), serve() / stop / serve() again: {problems}", {"kind": "serve_twice"})
     for eager_return in (True, False):
         for order in ("push,cancel", "cancel,push", "push,hop,cancel", "cancel,hop,push", "push,hop,hop,cancel", "cancel,hop,hop,push"):
             handled = vloop.run(lambda: _scoped_handler_scenario(order, eager_return))
